@@ -3,8 +3,10 @@
 
    Objects:  model/AllOf.v   = core/compile_catalog.go ProcessAllOf ... inheritPropertiesFromUserType
                                on an explicit heap (in-place mutation, shallow copies sharing
-                               grandchildren, run-wide memo set), `run e` = the stage on project e
-                               with the model's own fuel (theorems below: it is never exhausted);
+                               grandchildren, run-wide memo set), as of /repo d4084b3: arrays are
+                               descended into, JSON-RPC Params/Result are visited in a last pass;
+                               `run e` = the stage on project e with the model's own fuel (theorems
+                               below: it is never exhausted);
              spec/AllOfSpec.v = spec_tree: the pure closure (bases in rule order, properties in
                                declaration order, transitively, marked with the DIRECT base);
                                lib_ok: what the schema library accepts before the stage runs (no
@@ -14,18 +16,27 @@
 
    What is decided here, and how far:
 
-   * allof_correct_rootlevel — for EVERY project accepted by the library whose allOf rules sit at
-     the roots of user types and of use-site schemas (any number of types, any acyclic inheritance
-     graph: chains, several bases, shared bases, empty diamonds; any declaration order; any set of
-     use sites of any kind; arbitrary nested objects/arrays WITHOUT allOf): the stage returns
-     without error, without panic and within its fuel, and every user type and every visited
-     use-site schema renders exactly as spec_tree.  Not covered by this theorem: allOf on an object
-     nested inside another schema (see the comment at the end); there the statement is decided for
-     all projects of the bounded enumeration by the extracted model (c12.py, model search).
-   * bases_unchanged, order_independent — same class.
-   * undefined_base_rejected, non_object_base_rejected — unconditional (ANY project).
-   * the two classes of accepted documents on which the code contradicts the property:
-     allof_in_array_refuted, allof_in_rpc_refuted. *)
+   * allof_correct_skeleton (the `_partial` of allof_correct) — for EVERY project accepted by the
+     library in the class env_skeleton:
+       (1) no object with an allOf rule lies inside another object with an allOf rule (below an
+           object with a rule everything is plain; above it only objects and arrays without rule);
+       (2) every user type NAMED in some allOf rule has its own rules at its root only.
+     So: rules on nested objects and on array items, at any depth, in use-site schemas (Path, Query,
+     Headers, Body, JSON-RPC Params/Result) and in user types nobody inherits from; flat bases;
+     any number of types, any acyclic inheritance graph (chains, several bases, shared bases, empty
+     diamonds), any declaration order, any set of use sites.  The stage returns without error,
+     without panic and within its fuel, and every user type and every use-site schema renders
+     exactly as spec_tree.
+     NOT covered (see the comment at the end): a BASE type with a rule below its root (its
+     children are copied by value and the copies share the mutated grandchildren), and a rule
+     inside an object that has a rule itself.  There the statement is decided for all projects of
+     the bounded enumeration by the extracted model (c12.py, model search: no deviation left).
+   * allof_correct_rootlevel — the corollary for projects whose rules all sit at schema roots.
+   * bases_unchanged, order_independent — same class as allof_correct_skeleton.
+   * bases_checked, undefined_base_rejected, non_object_base_rejected — unconditional (ANY project).
+   * array_items_inherit, rpc_schemas_inherit — the two classes of accepted documents on which the
+     code contradicted the property before a2c8521 / d4084b3 (then: allof_in_array_refuted,
+     allof_in_rpc_refuted), now positive. *)
 From Coq Require Import List NArith Bool String Permutation.
 From JV.lib Require Import Bytes.
 From JV.model Require Import AllOf.
@@ -35,15 +46,23 @@ Import ListNotations.
 Open Scope nat_scope.
 Open Scope string_scope.
 
-(* renders_as_spec rpc_too e w: for every rendering fuel >= env_size e + 2, every user type
-   (w_types w pairs with e_types e, name by name) and every use-site schema — the JSON-RPC ones
-   only when rpc_too — renders in w's heap as spec_schema e says. *)
+(* renders_as_spec e w: for every rendering fuel >= 2 * env_size e + 3, every user type
+   (w_types w pairs with e_types e, name by name) and every use-site schema renders in w's heap as
+   spec_schema e says. *)
+
+Theorem allof_correct_skeleton :
+  forall e, lib_ok e = true -> env_skeleton e = true ->
+  exists w, run e = ROk w /\
+            renders_as_spec e w /\
+            w_types w = w_types (init_world e) /\ w_uses w = w_uses (init_world e) /\
+            (forall i n, get (w_state (init_world e)) i = Some n -> n_allof n = [] -> get (w_state w) i = Some n).
+Proof. exact allof_correct_skeleton_bool. Qed.
+Print Assumptions allof_correct_skeleton.
 
 Theorem allof_correct_rootlevel :
   forall e, lib_ok e = true -> env_root_level e = true ->
   exists w, run e = ROk w /\
-            renders_as_spec false e w /\
-            (env_no_rpc_allof e = true -> renders_as_spec true e w) /\
+            renders_as_spec e w /\
             w_types w = w_types (init_world e) /\ w_uses w = w_uses (init_world e) /\
             (forall i n, get (w_state (init_world e)) i = Some n -> n_allof n = [] -> get (w_state w) i = Some n).
 Proof. exact allof_correct_rootlevel_lemma. Qed.
@@ -54,7 +73,7 @@ Print Assumptions allof_correct_rootlevel.
    every type — is physically untouched by the run.  (A base WITH a rule gets its own inherited
    properties, as allof_correct says, whoever else inherits from it.) *)
 Theorem bases_unchanged :
-  forall e, lib_ok e = true -> env_root_level e = true ->
+  forall e, lib_ok e = true -> env_skeleton e = true ->
   exists w, run e = ROk w /\
             forall i n, get (w_state (init_world e)) i = Some n -> n_allof n = [] -> get (w_state w) i = Some n.
 Proof. exact bases_unchanged_lemma. Qed.
@@ -64,12 +83,12 @@ Print Assumptions bases_unchanged.
    requests, responses, headers, queries, paths use which types *)
 Theorem order_independent :
   forall e1 e2,
-  lib_ok e1 = true -> lib_ok e2 = true -> env_root_level e1 = true -> env_root_level e2 = true ->
+  lib_ok e1 = true -> lib_ok e2 = true -> env_skeleton e1 = true -> env_skeleton e2 = true ->
   Permutation (e_types e1) (e_types e2) ->
   exists w1 w2, run e1 = ROk w1 /\ run e2 = ROk w2 /\
     forall name t r1 r2 fuel,
       In (name, Some t) (e_types e1) -> In (name, Some r1) (w_types w1) -> In (name, Some r2) (w_types w2) ->
-      env_size e1 + env_size e2 + 2 <= fuel ->
+      2 * (env_size e1 + env_size e2) + 3 <= fuel ->
       render fuel (w_state w1) r1 = render fuel (w_state w2) r2 /\ render fuel (w_state w1) r1 <> None.
 Proof. exact order_independent_lemma. Qed.
 Print Assumptions order_independent.
@@ -81,7 +100,7 @@ Theorem bases_checked :
   forall e w, run e = ROk w ->
   (forall name ao kids b, In (name, Some (Tree TObject ao kids)) (e_types e) -> In b ao ->
      exists ao' kids', lookup (e_types e) b = Some (Some (Tree TObject ao' kids'))) /\
-  (forall k ao kids b, In (k, Tree TObject ao kids) (e_uses e) -> is_rpc k = false -> In b ao ->
+  (forall k ao kids b, In (k, Tree TObject ao kids) (e_uses e) -> In b ao ->
      exists ao' kids', lookup (e_types e) b = Some (Some (Tree TObject ao' kids'))).
 Proof. exact bases_checked_lemma. Qed.
 Print Assumptions bases_checked.
@@ -130,28 +149,41 @@ Theorem override_rejected_examples :
 Proof. exact override_examples_lemma. Qed.
 Print Assumptions override_rejected_examples.
 
-(* ---- refuted as stated: accepted documents in which an allOf rule is NOT applied ---- *)
+(* ---- array items and JSON-RPC schemas: refuted for the code before a2c8521 / d4084b3
+   (allof_in_array_refuted, allof_in_rpc_refuted of the first round), now applied.  JSON-RPC schemas
+   are covered by allof_correct_rootlevel; allOf below an array is not in its class: examples here,
+   every project of the enumeration in c12.py ---- *)
 
-(* an object with an allOf rule that is an array item (or lies below an array): the library
-   accepts the project, the stage returns at `sc.TokenType != object` without descending *)
-Theorem allof_in_array_refuted :
-  exists e, lib_ok e = true /\ env_no_rpc_allof e = true /\ env_no_array_allof e = false /\
-            exists w, run e = ROk w /\
-                      map snd (o_uses (observe e w)) = [Some (RNode None TArray [] [RNode None TObject [] [leaf "z" ""]])] /\
-                      map (fun x => spec_schema e (snd x)) (e_uses e)
-                      = [Some (RNode None TArray [] [RNode None TObject [] [leaf "a" "@a"; leaf "z" ""]])].
-Proof. exact allof_in_array_refuted_lemma. Qed.
-Print Assumptions allof_in_array_refuted.
+Theorem array_items_inherit :
+  lib_ok ex_array = true /\ env_no_array_allof ex_array = false /\ compare_env ex_array = VAgree /\
+  uses_of ex_array =
+  ROk [(URespBody, Some (RNode None TArray [] [RNode None TObject [] [leaf "a" "@a"; leaf "z" ""]]));
+       (UReqBody, Some (robj [RNode (Some (bs "items")) TArray (bs "@l")
+                                    [RNode None TObject [] [leaf "a" "@a"; leaf "m" ""]; RNode None TOther [] []];
+                              RNode (Some (bs "w")) TArray []
+                                    [RNode None TArray [] [RNode None TObject [] [leaf "a" "@a"]]]]))].
+Proof. exact array_items_inherit_lemma. Qed.
+Print Assumptions array_items_inherit.
 
-(* JSON-RPC Params / Result schemas are never visited by ProcessAllOf *)
-Theorem allof_in_rpc_refuted :
-  exists e, lib_ok e = true /\ env_root_level e = true /\ env_no_array_allof e = true /\ env_no_rpc_allof e = false /\
-            exists w, run e = ROk w /\
-                      map snd (o_uses (observe e w)) = [Some (robj [leaf "p" ""]); Some (robj [])] /\
-                      map (fun x => spec_schema e (snd x)) (e_uses e)
-                      = [Some (robj [leaf "a" "@a"; leaf "p" ""]); Some (robj [leaf "a" "@a"])].
-Proof. exact allof_in_rpc_refuted_lemma. Qed.
-Print Assumptions allof_in_rpc_refuted.
+Theorem rpc_schemas_inherit :
+  lib_ok ex_rpc = true /\ env_no_rpc_allof ex_rpc = false /\ compare_env ex_rpc = VAgree /\
+  uses_of ex_rpc =
+  ROk [(URpcParams, Some (robj [leaf "a" "@b"; leaf "b" "@b"; leaf "p" ""]));
+       (URpcResult, Some (robj [leaf "a" "@a"]));
+       (URespBody, Some (robj [leaf "a" "@a"; leaf "z" ""]));
+       (URpcParams, Some (RNode None TArray [] [RNode None TObject [] [leaf "a" "@b"; leaf "b" "@b"]]))].
+Proof. exact rpc_schemas_inherit_lemma. Qed.
+Print Assumptions rpc_schemas_inherit.
+
+(* a project of the class of allof_correct_skeleton that is not root-level (rules on array items and
+   nested objects of use sites and of a type nobody inherits from); ex_array and ex_nested are
+   outside the class (a base with a rule below its root; a rule inside an object with a rule) *)
+Theorem skeleton_example :
+  lib_ok ex_skeleton = true /\ env_skeleton ex_skeleton = true /\ env_root_level ex_skeleton = false /\
+  compare_env ex_skeleton = VAgree /\
+  env_skeleton ex_array = false /\ env_skeleton ex_nested = false.
+Proof. exact skeleton_example_lemma. Qed.
+Print Assumptions skeleton_example.
 
 (* ---- readings of the property text, settled by computation on the model (and on the real
    code by c12.py) ---- *)
@@ -188,19 +220,23 @@ Print Assumptions used_types_order_dependent.
 (* The full statements, and what is missing for them.
 
    allof_correct (all accepted projects):
-     forall e, lib_ok e = true -> env_no_array_allof e = true ->
-     exists w, run e = ROk w /\ renders_as_spec false e w.
-   The proof above needs, of the heap, only that a node that is ever mutated is never anybody's
-   child (heap_ok): true when allOf rules sit at schema roots.  With allOf on nested objects a
-   mutated node IS a child, is copied by value into inheriting schemas (the copy shares its
-   children) and is visited again through each copy; the argument then needs (1) a separation
-   invariant: the regions below two unvisited schema roots are disjoint trees; (2) "a fully
-   visited node is a fixed point of the stage" as a heap-level statement, so that visits through
-   copies change nothing.  No counterexample exists among all projects of the enumeration in
-   c12.py (3.9 million projects in the model search of the thorough tier, 9.7 million in the one-off
-   search made when the component was written: <= 4 types, allOf at depth <= 3, every declaration
-   order, every kind of use site): outside arrays and JSON-RPC the model agrees with
-   spec_tree on every one of them.
+     forall e, lib_ok e = true -> exists w, run e = ROk w /\ renders_as_spec e w.
+   The proof of allof_correct_skeleton needs, of the heap, that a node that is ever mutated is
+   never the child of a node that is copied or mutated (heap_ok: only the INNER nodes — objects
+   and arrays without rule above a rule — have mutated children, and they are only walked
+   through).  Two situations are outside:
+     (a) a BASE with a rule below its root (e.g. TYPE @t { "p": { // {allOf: "@x"} } } inherited by
+         somebody): the mutated node p is copied by value into every inheriting object, the copies
+         share p's children and are visited again through each copy;
+     (b) a rule inside an object that has a rule itself: the outer object is mutated and has a
+         mutated child.
+   Both need (1) a separation invariant (the regions below two unvisited schema roots are
+   disjoint trees) and (2) "a fully visited node is a fixed point of the stage" as a heap-level
+   statement, so that visits through copies change nothing.  No counterexample exists among the
+   projects of the enumeration in c12.py (model search of the thorough tier, and 8.9 million
+   projects in the one-off search after the fixes: <= 4 types, allOf at depth <= 3, every
+   declaration order, every kind of use site): the model agrees with spec_tree on every accepted
+   one — no deviating class is left.
 
    override_rejected (whole runs, any project):
      forall e w name ao kids b ao' kids' k, run e = ROk w ->
